@@ -429,7 +429,23 @@ theorem step_docInv (s : St) (op : Op) (hi : Inv s) (hd : DocInv s) : DocInv (st
   | insertBefore p c r => simp only [step]; exact insertChild_docInv s p c r hi hd
   | removeChild p c => simp only [step]; exact removeChild_docInv s p c hd
   | replaceChild p new old => exact replaceChild_docInv s p new old hi hd
-  | normalize e => simp only [step]; exact hd
+  | normalize e =>
+    simp only [step]
+    cases hf : s.find e with
+    | none => exact hd
+    | some en =>
+      have hk : KeepsIdKind (fun n => (normNode n).1) := by
+        intro n; cases n with
+        | mk j k d as ks => cases k <;> exact ⟨rfl, rfl⟩
+      have ht := update_topLe s e (fun n => (normNode n).1) hk (fun _ => by
+        have hkd := hd.1
+        cases hs : s.doc with
+        | mk j k d as ks =>
+          rw [hs] at hkd
+          simp only [Node.kind] at hkd
+          subst hkd
+          simp [normNode])
+      exact (hd.of_topLe ht).same_doc rfl
   | setData n d => simp only [step]; exact dataOp_docInv s n _ hd
   | appendData n d => simp only [step]; exact dataOp_docInv s n _ hd
   | insertData n off d => simp only [step]; exact dataOp_docInv s n _ hd
